@@ -53,6 +53,29 @@ func (o sop) String() string {
 }
 
 // opGen draws operations inside a cluster [base-span, base+span].
+// scaled returns the operations that add the same content with every weight multiplied by f (C16's twin).
+func (o sop) scaled(f float64) []sop {
+	switch o.Kind {
+	case "add":
+		return []sop{{Kind: "addw", Index: o.Index, W: f}}
+	case "addw", "addbin":
+		return []sop{{Kind: o.Kind, Index: o.Index, W: o.W * f}}
+	case "burst":
+		out := make([]sop, len(o.Burst))
+		for i, x := range o.Burst {
+			out[i] = sop{Kind: "addw", Index: x, W: f}
+		}
+		return out
+	case "merge":
+		sub := &subHist{Kind: o.Other.Kind}
+		for _, x := range o.Other.Ops {
+			sub.Ops = append(sub.Ops, x.scaled(f)...)
+		}
+		return []sop{{Kind: "merge", Other: sub}}
+	}
+	return []sop{o}
+}
+
 type opGen struct {
 	base, span int
 	bud        *model.Budget
